@@ -113,8 +113,13 @@ assert len(EFF_TRI) == 243
 def bounds(tier):
     b = {"single_specs": len(SINGLE), "names": 8, "ints": "-2..257", "tuples": "{-1..6}^3 = 512",
          "grays": "g-1..g25", "junk": len(JUNK), "lists": len(LISTS), "effect_subsets": 32,
-         "effect_assignments_True_False_None": 243, "texts": list(TEXTS),
-         "pair_representatives": len(_reps(tier)) + len(REPS_BAD), "multi_chunk_formats": len(_multi_formats(tier))}
+         "effect_assignments_True_False_None": "243 x every single spec (fg)" +
+         (" and (bg)" if tier == "thorough" else ""), "texts": list(TEXTS),
+         "pair_representatives": f"{len(_pair_reps(tier))}^2 x 32 effect subsets",
+         "tri_representatives": f"{len(_tri_reps(tier))}^2 x 243 assignments",
+         "multi_chunk_formats": f"{len(_multi_formats(tier))}^3 x 3 text rotations"}
+    if tier == "thorough":
+        b["full_fg_x_bg_product"] = f"{len(SINGLE)}^2 x {len(PRODUCT_EFFECTS)} effect subsets"
     return b
 
 
@@ -130,21 +135,35 @@ def _multi_formats(tier):
     return base
 
 
+PRODUCT_EFFECTS = [(), ("bold",), ("underline", "crossed"), EFFECTS]
+TRI_EXTRA = ["CYAN", 100, (1, 2, 3), "g11"]
+
+
+def _pair_reps(tier):
+    return REPS_THOROUGH + REPS_BAD
+
+
+def _tri_reps(tier):
+    return REPS_QUICK if tier == "quick" else REPS_QUICK + TRI_EXTRA
+
+
 def shards(tier):
     sh = []
     nchunks = 24
     for pos in ("fg", "bg"):
         for k in range(nchunks):
             sh.append(("single", pos, k, nchunks))
-    reps = _reps(tier) + REPS_BAD
-    for i in range(len(reps)):
+    for k in range(nchunks):
+        sh.append(("single-tri", "fg", k, nchunks))
+    for i in range(len(_pair_reps(tier))):
         sh.append(("pairs", i))
-    tri_reps = _reps("quick") if tier == "quick" else _reps("quick") + ["CYAN", 100, (1, 2, 3), "g11"]
-    for i in range(len(tri_reps)):
+    for i in range(len(_tri_reps(tier))):
         sh.append(("tri", i))
     if tier == "thorough":
         for k in range(nchunks):
-            sh.append(("single-tri", k, nchunks))
+            sh.append(("single-tri", "bg", k, nchunks))
+        for k in range(128):
+            sh.append(("product", k, 128))
     sh.append(("nocolor", "fg"))
     sh.append(("nocolor", "bg"))
     sh.append(("multi",))
@@ -273,6 +292,12 @@ def check_case(case, acc):
         fb = impl.ColorBytes(color, bg_color=bg, **kw)
     except Exception as e:  # noqa
         bad = family(color) if color is not None else family(bg)
+        if color is not None and bg is not None:        # name the argument that is the culprit
+            try:
+                impl.ColorFmt(color)
+                bad = family(bg)
+            except Exception:  # noqa
+                bad = family(color)
         return ((f"valid-rejected:{bad}", f"a valid colour value was rejected with {type(e).__name__}", repr(e),
                  {"fg": ef, "bg": eb}), "bad", feats, True)
     want = (ef, eb, want_eff)
@@ -398,23 +423,37 @@ def run_shard(shard, tier, seed, acc):
                     _do(acc, None, spec, eff)
         return
     if kind == "single-tri":
-        _, k, n = shard
+        _, pos, k, n = shard
         for idx, spec in enumerate(SINGLE):
             if idx % n != k:
                 continue
             for tri in EFF_TRI:
                 eff = dict(zip(EFFECTS, tri))
-                _do(acc, spec, None, eff)
+                if pos == "fg":
+                    _do(acc, spec, None, eff)
+                else:
+                    _do(acc, None, spec, eff)
         return
     if kind == "pairs":
-        reps = _reps(tier) + REPS_BAD
+        reps = _pair_reps(tier)
         a = reps[shard[1]]
         for b in reps:
             for sub in EFF_SUBSETS:
                 _do(acc, a, b, {e: True for e in EFFECTS if e in sub})
         return
+    if kind == "product":
+        _, k, n = shard
+        for idx, a in enumerate(SINGLE):
+            if idx % n != k:
+                continue
+            for b in SINGLE:
+                for effs in PRODUCT_EFFECTS:
+                    _do(acc, a, b, {e: True for e in effs})
+            if acc.expired():
+                return
+        return
     if kind == "tri":
-        tri_reps = _reps("quick") if tier == "quick" else _reps("quick") + ["CYAN", 100, (1, 2, 3), "g11"]
+        tri_reps = _tri_reps(tier)
         a = tri_reps[shard[1]]
         for b in tri_reps:
             for tri in EFF_TRI:
